@@ -1,3 +1,4 @@
 import TinyFlux.Audit.Tool
 import TinyFlux.Props.C11
+import TinyFlux.Props.C11State
 #audit TinyFlux.Props.C11
